@@ -111,8 +111,8 @@ def has_escape(stmts, raising=()):
     (not inside a nested loop)?"""
     def walk(ss, loopdepth):
         for s in ss:
-            if isinstance(s, (ast.Return, ast.Raise)):
-                return True
+            if isinstance(s, (ast.Return, ast.Raise, ast.While)):
+                return True           # a while loop can end in Err OutOfFuel
             if raising and not isinstance(s, (ast.If, ast.For, ast.While)) and contains_raising([s], raising):
                 return True
             if isinstance(s, (ast.Break, ast.Continue)) and loopdepth == 0:
@@ -369,6 +369,8 @@ class FuncTr:
             n = f.id
             if n in self.abstract:
                 return "(" + self.abstract[n] + "".join(" " + self.expr(a) for a in args) + ")"
+            if n == "interp1d" and len(args) == 2:
+                return f"({self.expr(args[0])}, {self.expr(args[1])})"      # the interpolant is represented by its knots
             one = {"floor": "qfloor", "ceil": "qceil", "abs": "qabs", "int": "qtrunc", "float": "", "len": "qlen",
                    "sum": "qsum", "list": ""}
             if n in one and len(args) == 1:
@@ -539,6 +541,21 @@ class FuncTr:
                     self.note_defined(nm)
                     defined.add(nm)
                 return f"let '({', '.join(names)}) := {rhs} in{ind}{self.block(rest, final, defined)}"
+            if self.raises and isinstance(s.value, ast.Subscript) and not isinstance(s.value.slice, ast.Slice) \
+                    and isinstance(s.value.value, ast.Name) and self.infer(s.value.value).startswith("list") and isinstance(t, ast.Name):
+                # `v = lst[i]` in a function that can raise: Python's IndexError is part of the behaviour
+                name = self.target_name(t)
+                lst, idx = self.expr(s.value.value), self.expr(s.value.slice)
+                self.note_defined(name, s.value)
+                defined.add(name)
+                if self.loopstack:
+                    st = self.loopstack[-1]
+                    if not st.get("err"):
+                        raise Unsupported("indexing that may raise inside a loop without error state")
+                    bad = self.tuple_of((["true"] if st["brk"] else []) + ["(Some IndexError)"] + st["state"])
+                else:
+                    bad = "Err IndexError"
+                return f"(if idx_ok {lst} {idx} then{ind}let {name} := (nthD {lst} {idx}) in{ind}{self.block(rest, final, defined)}{ind}else {bad})"
             name = self.target_name(t)
             if isinstance(s.value, ast.Constant) and isinstance(s.value.value, str):
                 self.vtypes[name] = "str"          # message strings: only ever passed to warnings.warn / print
@@ -771,6 +788,9 @@ def contains_raising(stmts, raising):
         for n in ast.walk(st):
             if isinstance(n, ast.Raise):
                 return True
+            if isinstance(n, ast.Assign) and isinstance(n.value, ast.Subscript) and not isinstance(n.value.slice, ast.Slice) \
+                    and isinstance(n.value.value, ast.Name) and len(n.targets) == 1 and isinstance(n.targets[0], ast.Name):
+                return True
             if isinstance(n, ast.Call) and isinstance(n.func, ast.Name) and n.func.id in raising:
                 return True
     return False
@@ -939,6 +959,90 @@ class Gen:
             raise Unsupported(f"{qual1} and {qual2} are no longer identical")
         self.out.append(f"(* obligation checked by the translator: {qual1} and {qual2} have identical bodies *)")
 
+    @staticmethod
+    def slist(xs):
+        return "[" + "; ".join('"' + x + '"' for x in xs) + "]%string"
+
+    def dict_keys(self, fname, qual, coqname):
+        """keys of the dict literal returned by `qual` (a to_input method)"""
+        node = self.find(fname, qual)
+        rets = [n for n in ast.walk(node) if isinstance(n, ast.Return) and isinstance(n.value, ast.Dict)]
+        if len(rets) != 1:
+            raise Unsupported(f"{qual}: expected one `return {{...}}`")
+        keys = []
+        for k in rets[0].value.keys:
+            if not (isinstance(k, ast.Constant) and isinstance(k.value, str)):
+                raise Unsupported(f"{qual}: non-literal key")
+            keys.append(k.value)
+        self.out.append(f"(* {fname}:{node.lineno} {qual}: keys written *)\nDefinition {coqname} : list string := {self.slist(keys)}.")
+
+    def subscript_keys(self, fname, qual, var, coqname, mode="store", guard=None, toplevel=False):
+        """string keys used with dict `var` inside `qual`.
+        mode store: `var['k'] = ...` and keys of a dict literal assigned to var;  load: `var['k']` read;  get: `var.get('k', ...)`.
+        guard: only inside the body of an `if`/`elif` whose test contains that text.  toplevel: only outside every `if`."""
+        node = self.find(fname, qual)
+        keys = []
+
+        def add(k):
+            if k not in keys:
+                keys.append(k)
+
+        def scan_expr(n):
+            for ch in ast.walk(n):
+                if isinstance(ch, ast.Subscript) and isinstance(ch.value, ast.Name) and ch.value.id == var and \
+                        isinstance(ch.slice, ast.Constant) and isinstance(ch.slice.value, str):
+                    st = isinstance(ch.ctx, ast.Store)
+                    if (mode == "store" and st) or (mode == "load" and not st):
+                        add(ch.slice.value)
+                if mode == "get" and isinstance(ch, ast.Call) and isinstance(ch.func, ast.Attribute) and ch.func.attr == "get" and \
+                        isinstance(ch.func.value, ast.Name) and ch.func.value.id == var and ch.args and isinstance(ch.args[0], ast.Constant):
+                    add(ch.args[0].value)
+                if mode == "store" and isinstance(ch, ast.Assign) and len(ch.targets) == 1 and isinstance(ch.targets[0], ast.Name) and \
+                        ch.targets[0].id == var and isinstance(ch.value, ast.Dict):
+                    for k in ch.value.keys:
+                        if isinstance(k, ast.Constant) and isinstance(k.value, str):
+                            add(k.value)
+
+        def walk(stmts, active, depth):
+            for st in stmts:
+                if isinstance(st, ast.If):
+                    tt_ = ast.unparse(st.test)
+                    hit = guard is not None and (tt_.endswith(guard) or (guard.startswith('in [') and guard in tt_))
+                    # the test expression itself belongs to the enclosing context
+                    if (guard is None and not (toplevel and depth > 0)) or active:
+                        scan_expr(st.test)
+                    walk(st.body, active or hit, depth + 1)
+                    walk(st.orelse, active, depth + 1)
+                elif isinstance(st, (ast.For, ast.While, ast.With, ast.Try)):
+                    walk(getattr(st, "body", []), active, depth)
+                else:
+                    if guard is None:
+                        if not (toplevel and depth > 0):
+                            scan_expr(st)
+                    elif active:
+                        scan_expr(st)
+        walk(node.body, False, 0)
+        tag = mode + (", under `" + guard + "`" if guard else "") + (", top level" if toplevel else "")
+        self.out.append(f"(* {fname}:{node.lineno} {qual}: {var} keys ({tag}) *)\nDefinition {coqname} : list string := {self.slist(keys)}.")
+
+    def arg_names(self, fname, qual, coqname, drop=("self", "throw")):
+        node = self.find(fname, qual)
+        names = [a.arg for a in node.args.args if a.arg not in drop]
+        self.out.append(f"(* {fname}:{node.lineno} {qual}: parameter names *)\nDefinition {coqname} : list string := {self.slist(names)}.")
+
+    def schema(self, schema_file, coqname):
+        path = os.path.join(PKG, "schemas", schema_file)
+        with open(path) as f:
+            txt = f.read()
+        self.sources.append(("schemas/" + schema_file, hashlib.sha256(txt.encode()).hexdigest()[:16]))
+        sc = json.loads(txt)
+        props = list(sc.get("properties", {}).keys())
+        req = list(sc.get("required", []))
+        addl = sc.get("additionalProperties", True)
+        self.out.append(f"(* schemas/{schema_file} *)\nDefinition {coqname}_properties : list string := {self.slist(props)}.\n"
+                        f"Definition {coqname}_required : list string := {self.slist(req)}.\n"
+                        f"Definition {coqname}_additional : bool := {'true' if addl else 'false'}.")
+
     def raw(self, text):
         self.out.append(text)
 
@@ -972,6 +1076,64 @@ def build_spec(g):
     g.func("domains.py", "bi_rectangle_zoned_nested", rettype="list (list (list (Q * Q)))", ignore=ign, raises=True)
     g.assign_expr("design.py", "DesignNearSquare.__init__", "n", "near_square_n", [],
                   attrs=["self.geometric_constraints.length", "self.geometric_constraints.b"])
+    # ---- combined g-function (ground_heat_exchangers.py, gfunction.py) ----
+    lq2 = "list Q"
+    g.func("ground_heat_exchangers.py", "BaseGHE.combine_sts_lts", coqname="combine_sts_lts", rettype="tuple", raises=True,
+           fuel="len(log_time_sts) + 1",
+           ptypes={"log_time_lts": lq2, "g_lts": lq2, "log_time_sts": lq2, "g_sts": lq2})
+    g.func("gfunction.py", "GFunction.borehole_radius_correction", coqname="borehole_radius_correction", rettype=lq2,
+           ptypes={"g_function": lq2, "ln_": "Q -> Q"}, abstract={"log": "ln_"})
+    g.assign_expr("gfunction.py", "GFunction.g_function_interpolation", "h_eq", "h_eq_of", ["b_over_h"], attrs=["self.B"], index=0)
+    g.assign_expr("gfunction.py", "GFunction.g_function_interpolation", "close_tolerance", "gf_close_tolerance", [])
+    g.assign_expr("gfunction.py", "GFunction.g_function_interpolation", "tolerance", "gf_tolerance", [])
+    # ---- input files: keys written by to_input()/write_input_file, keys read by the CLI loader, schema key lists ----
+    g.dict_keys("media.py", "GHEFluid.to_input", "keys_fluid")
+    g.dict_keys("media.py", "ThermalProperty.to_input", "keys_grout")
+    g.dict_keys("media.py", "Soil.to_input", "keys_soil")
+    g.dict_keys("borehole.py", "GHEBorehole.to_input", "keys_borehole")
+    g.dict_keys("simulation.py", "SimulationParameters.to_input", "keys_simulation")
+    g.dict_keys("design.py", "DesignBase.to_input", "keys_design_base")
+    for cls, nm in (("GeometricConstraintsNearSquare", "near_square"), ("GeometricConstraintsRectangle", "rectangle"),
+                    ("GeometricConstraintsBiRectangle", "bi_rectangle"), ("GeometricConstraintsBiRectangleConstrained", "bi_rectangle_constrained"),
+                    ("GeometricConstraintsBiZoned", "bi_zoned")):
+        g.dict_keys("geometry.py", cls + ".to_input", "keys_geom_" + nm)
+    g.subscript_keys("geometry.py", "GeometricConstraintsRowWise.to_input", "d", "keys_geom_rowwise", toplevel=True)
+    g.subscript_keys("geometry.py", "GeometricConstraintsRowWise.to_input", "d", "keys_geom_rowwise_if_perimeter",
+                     guard="perimeter_spacing_ratio is not None")
+    W = ("manager.py", "GHEManager.write_input_file")
+    g.subscript_keys(*W, "d_geo", "keys_geo_added")
+    g.subscript_keys(*W, "d_des", "keys_des_always", toplevel=True)
+    g.subscript_keys(*W, "d_des", "keys_des_if_max_boreholes", guard="max_boreholes is not None")
+    g.subscript_keys(*W, "d_des", "keys_des_if_continue", guard="continue_if_design_unmet is True")
+    g.subscript_keys(*W, "d_pipe", "keys_pipe_always", toplevel=True)
+    g.subscript_keys(*W, "d_pipe", "keys_pipe_utube", guard="in [BHPipeType.SINGLEUTUBE")
+    g.subscript_keys(*W, "d_pipe", "keys_pipe_coaxial", guard="== BHPipeType.COAXIAL")
+    g.subscript_keys(*W, "d_pipe", "keys_pipe_arrangement", guard="== BHPipeType.SINGLEUTUBE")
+    Lw = ("manager.py", "_run_manager_from_cli_worker")
+    g.arg_names("manager.py", "GHEManager.set_fluid", "loader_fluid_kwargs")
+    g.arg_names("manager.py", "GHEManager.set_grout", "loader_grout_kwargs")
+    g.arg_names("manager.py", "GHEManager.set_soil", "loader_soil_kwargs")
+    g.subscript_keys(*Lw, "pipe_props", "loader_pipe_always", mode="load", toplevel=True)
+    g.subscript_keys(*Lw, "pipe_props", "loader_pipe_single", mode="load", guard="== BHPipeType.SINGLEUTUBE")
+    g.subscript_keys(*Lw, "pipe_props", "loader_pipe_coaxial", mode="load", guard="== BHPipeType.COAXIAL")
+    g.subscript_keys(*Lw, "borehole_props", "loader_borehole", mode="load")
+    g.subscript_keys(*Lw, "sim_props", "loader_sim", mode="load")
+    g.subscript_keys(*Lw, "design_props", "loader_design", mode="load")
+    g.subscript_keys(*Lw, "design_props", "loader_design_optional", mode="get")
+    g.subscript_keys(*Lw, "constraint_props", "loader_geom_always", mode="load", toplevel=True)
+    for meth, nm in (("RECTANGLE", "rectangle"), ("NEARSQUARE", "near_square"), ("BIRECTANGLE", "bi_rectangle"), ("BIZONEDRECTANGLE", "bi_zoned"),
+                     ("BIRECTANGLECONSTRAINED", "bi_rectangle_constrained"), ("ROWWISE", "rowwise")):
+        g.subscript_keys(*Lw, "constraint_props", "loader_geom_" + nm, mode="load", guard="== DesignGeomType." + meth)
+    g.subscript_keys(*Lw, "constraint_props", "loader_geom_rowwise_optional", mode="get", guard="== DesignGeomType.ROWWISE")
+    for sf, nm in (("fluid.schema.json", "schema_fluid"), ("grout.schema.json", "schema_grout"), ("soil.schema.json", "schema_soil"),
+                   ("borehole.schema.json", "schema_borehole"), ("simulation.schema.json", "schema_simulation"), ("design.schema.json", "schema_design"),
+                   ("pipe_single_double_u_tube.schema.json", "schema_pipe_utube"), ("pipe_coaxial.schema.json", "schema_pipe_coaxial"),
+                   ("geometric_near_square.schema.json", "schema_geom_near_square"), ("geometric_rectangle.schema.json", "schema_geom_rectangle"),
+                   ("geometric_bi_rectangle.schema.json", "schema_geom_bi_rectangle"),
+                   ("geometric_bi_rectangle_constrained.schema.json", "schema_geom_bi_rectangle_constrained"),
+                   ("geometric_bi_zoned_rectangle.schema.json", "schema_geom_bi_zoned"), ("geometric_rowwise.schema.json", "schema_geom_rowwise"),
+                   ("file_structure.schema.json", "schema_file")):
+        g.schema(sf, nm)
     # ---- point in polygon (shape.py) ----
     g.func("shape.py", "point_polygon_check.between", coqname="between", rettype="bool")
     g.assign_expr("shape.py", "point_polygon_check", "c", "ppc_cross", ["v1x", "px", "v2y", "py", "v2x", "v1y"])
@@ -1020,7 +1182,7 @@ def main():
     except (Unsupported, SyntaxError, OSError) as ex:
         status = {"ok": False, "error": f"{type(ex).__name__}: {ex}"}
     header = ("(* GENERATED by tools/srcgen.py from /repo/ghedesigner — do not edit. *)\n"
-              "From Coq Require Import ZArith QArith List Bool.\nFrom GHE Require Import Base.QUtil.\n"
+              "From Coq Require Import ZArith QArith String List Bool.\nFrom GHE Require Import Base.QUtil.\n"
               "Import ListNotations.\nOpen Scope Q_scope.\n\n")
     text = header + "\n\n".join(g.out) + "\n"
     if g.notes:
